@@ -536,6 +536,11 @@ fn gen_cases(apis: &[Api], quick: bool, nalign: usize) -> Vec<Case> {
     let big_aligns: [usize; 8] = [0, 1, 15, 16, 31, 32, 33, 63];
     // ... and one sweep 4032..4095 ending at the last mapped byte (the start takes every alignment)
     let tail_sweep_bases: Vec<usize> = if quick { vec![4032] } else { vec![] };
+    // Added after the mutation campaign (M27: an over-read guarded by `data.len() >= 8192` was invisible, the lengths
+    // stopped at 4097): 8 KiB, 16 KiB + 1 and 64 KiB for every variable-length API, only with the slice ENDING a bytes
+    // before the unmapped page (a = 0 abuts it), a in {0, 1, 63}. These cases live in the second, 17-page arena.
+    let huge_classes: [usize; 3] = [8192, 16385, 65536];
+    let huge_aligns: [usize; 3] = [0, 1, 63];
     let mut seen = HashSet::new();
     let mut out = Vec::new();
     let mut push = |c: Case, out: &mut Vec<Case>| {
@@ -567,6 +572,11 @@ fn gen_cases(apis: &[Api], quick: bool, nalign: usize) -> Vec<Case> {
                             for &b in &tail_sweep_bases {
                                 for d in 0..64 {
                                     push(Case { api: i, tail, a: 0, len: b + d, pre }, &mut out);
+                                }
+                            }
+                            for &len in &huge_classes {
+                                for &a in huge_aligns.iter().filter(|&&a| a < nalign.max(1)) {
+                                    push(Case { api: i, tail, a, len, pre }, &mut out);
                                 }
                             }
                         }
@@ -602,7 +612,28 @@ enum Res {
     Fail(String),           // outcome text
 }
 
-fn run_one(arena: &Arena, apis: &[Api], c: &Case, idx: usize, emit: bool) -> Res {
+/// Pages of the second arena (cases that do not fit the small one): 65536 + 63 bytes need 17.
+const HUGE_PAGES: usize = 17;
+
+/// The arena a case is placed in: the small one whenever the slice fits it (so every older case keeps its
+/// placement and its cost: the whole arena is painted and inspected per case), the 17-page one otherwise.
+struct Arenas {
+    small: Arena,
+    huge: Arena,
+}
+
+impl Arenas {
+    fn of(&self, c: &Case) -> &Arena {
+        if c.a + c.len <= self.small.size {
+            &self.small
+        } else {
+            &self.huge
+        }
+    }
+}
+
+fn run_one(arenas: &Arenas, apis: &[Api], c: &Case, idx: usize, emit: bool) -> Res {
+    let arena = arenas.of(c);
     let api = &apis[c.api];
     let size = arena.size;
     let input = match api.kind {
@@ -737,7 +768,7 @@ fn signame(s: i32) -> String {
 
 /// Runs cases[lo..hi) in forked children; returns per case (status text or None for ok, emitted case)
 fn run_range(
-    arena: &Arena,
+    arena: &Arenas,
     apis: &[Api],
     cases: &[Case],
     emit: &[bool],
@@ -859,7 +890,7 @@ fn mem(a: &Args) {
     let fams: HashSet<String> = a.str("families", "").split(',').filter(|s| !s.is_empty()).map(|s| s.to_string()).collect();
     let pages = if quick { 2 } else { 3 };
     std::panic::set_hook(Box::new(|_| {}));
-    let arena = Arena::new(pages);
+    let arenas = Arenas { small: Arena::new(pages), huge: Arena::new(HUGE_PAGES) };
     let apis = build_apis(&fams);
     let cases = gen_cases(&apis, quick, nalign);
     // which cases go to Coq: an even stride over the cases that are short enough, rotated by the seed
@@ -879,7 +910,7 @@ fn mem(a: &Args) {
             }
         }
     }
-    let (outcome, emitted, signals) = run_range(&arena, &apis, &cases, &emit, level, a.u64("maxkills", 2000) as usize);
+    let (outcome, emitted, signals) = run_range(&arenas, &apis, &cases, &emit, level, a.u64("maxkills", 2000) as usize);
 
     let mut direct = Vec::new();
     let mut nfail = 0usize;
@@ -892,6 +923,7 @@ fn mem(a: &Args) {
     for (i, c) in cases.iter().enumerate() {
         *by_family.entry(apis[c.api].family).or_insert(0) += 1;
         let t = c.tail as usize;
+        let arena = arenas.of(c);
         start_align[t].insert(c.off(arena.size) % 64);
         if c.a == 0 {
             // alignment of the end that does not abut the guard page
@@ -929,14 +961,14 @@ fn mem(a: &Args) {
     std::fs::write(format!("{}/cases.json", out), format!("[{}]", all.join(",\n"))).unwrap();
     let samples: Vec<String> = [0usize, cases.len() / 3, cases.len() - 1]
         .iter()
-        .map(|&i| cases[i].json(&apis, arena.size, outcome[i].as_deref().unwrap_or("ok: equal to the aligned-buffer run, canary intact")))
+        .map(|&i| cases[i].json(&apis, arenas.of(&cases[i]).size, outcome[i].as_deref().unwrap_or("ok: equal to the aligned-buffer run, canary intact")))
         .collect();
     let setj = |s: &BTreeSet<usize>| format!("[{}]", s.iter().map(|x| x.to_string()).collect::<Vec<_>>().join(","));
     let mapj = |m: &BTreeMap<&str, usize>| {
         format!("{{{}}}", m.iter().map(|(k, v)| format!("{}:{}", jstr(k), v)).collect::<Vec<_>>().join(","))
     };
     println!(
-        "{{\"evaluations\":{},\"distinct_nontrivial\":{},\"direct_failures\":[{}],\"failing_cases\":{},\"samples\":[{}],\"coq_window_cases\":{},\"coq_sample\":{},\"cases_len_ge_2048\":{},\"apis\":{},\"api_names\":[{}],\"by_family\":{},\"placements\":{},\"start_alignments_head\":{},\"start_alignments_tail\":{},\"free_end_alignments_at_first_mapped_byte\":{},\"start_alignments_ending_at_last_mapped_byte\":{},\"distinct_lengths\":{},\"max_length\":{},\"mapped_pages\":{},\"guard_pages\":2,\"signals\":{},\"backend_level\":{},\"backend\":{},\"profile\":{},\"children\":\"fork per run, restarted behind a killed case\"}}",
+        "{{\"evaluations\":{},\"distinct_nontrivial\":{},\"direct_failures\":[{}],\"failing_cases\":{},\"samples\":[{}],\"coq_window_cases\":{},\"coq_sample\":{},\"cases_len_ge_2048\":{},\"cases_len_ge_8192\":{},\"mapped_pages_for_cases_that_do_not_fit\":{},\"apis\":{},\"api_names\":[{}],\"by_family\":{},\"placements\":{},\"start_alignments_head\":{},\"start_alignments_tail\":{},\"free_end_alignments_at_first_mapped_byte\":{},\"start_alignments_ending_at_last_mapped_byte\":{},\"distinct_lengths\":{},\"max_length\":{},\"mapped_pages\":{},\"guard_pages\":2,\"signals\":{},\"backend_level\":{},\"backend\":{},\"profile\":{},\"children\":\"fork per run, restarted behind a killed case\"}}",
         cases.len(),
         distinct.len(),
         direct.join(","),
@@ -945,6 +977,8 @@ fn mem(a: &Args) {
         coq.len(),
         sample_desc,
         cases.iter().filter(|c| c.len >= 2048).count(),
+        cases.iter().filter(|c| c.len >= 8192).count(),
+        HUGE_PAGES,
         apis.len(),
         apis.iter().map(|a| jstr(&a.name)).collect::<Vec<_>>().join(","),
         mapj(&by_family),
@@ -967,7 +1001,7 @@ fn mem(a: &Args) {
 /// reported as a killed case / canary damage
 fn selftest() {
     std::panic::set_hook(Box::new(|_| {}));
-    let arena = Arena::new(2);
+    let arena = Arenas { small: Arena::new(2), huge: Arena::new(HUGE_PAGES) };
     let apis: Vec<Api> = vec![
         Api {
             name: "selftest::read_one_past_end".into(),
@@ -1015,6 +1049,8 @@ fn selftest() {
         Case { api: 1, tail: false, a: 1, len: 16, pre: 0 }, // canary damaged
         Case { api: 2, tail: false, a: 3, len: 16, pre: 0 }, // SIGSEGV (#GP on misaligned movdqa)
         Case { api: 2, tail: false, a: 16, len: 16, pre: 0 }, // ok
+        Case { api: 0, tail: true, a: 0, len: 65536, pre: 0 }, // second (17-page) arena: SIGSEGV
+        Case { api: 0, tail: true, a: 1, len: 16385, pre: 0 }, // second arena, reads canary: result differs
     ];
     let emit = vec![false; cases.len()];
     let (outcome, _, _) = run_range(&arena, &apis, &cases, &emit, 0, 100);
@@ -1024,7 +1060,9 @@ fn selftest() {
         && got[2].starts_with("killed: SIGSEGV")
         && got[3].starts_with("memory outside")
         && got[4].starts_with("killed")
-        && got[5] == "ok";
+        && got[5] == "ok"
+        && got[6].starts_with("killed: SIGSEGV")
+        && got[7].starts_with("result differs");
     println!(
         "{{\"selftest_ok\":{},\"outcomes\":[{}]}}",
         ok,
